@@ -793,6 +793,8 @@ class _FunctionArrayOps:
             func = getattr(self.namespace, name)
         except AttributeError:
             return None
+        if not callable(func):
+            return None
         array = func(arg)
         assert numpy.shape(array)[:numpy.ndim(arg)] == numpy.shape(arg)
         if numpy.ndim(array) == numpy.ndim(arg) + ngenerates:
